@@ -5,11 +5,13 @@ import (
 	"os"
 	"runtime/debug"
 	"runtime/pprof"
+	"syscall"
 
 	"verifharness/core"
 	"verifharness/props/c01"
 	"verifharness/props/c02"
 	"verifharness/props/c04"
+	"verifharness/props/c05"
 	"verifharness/props/c06"
 	"verifharness/props/c07"
 	"verifharness/props/c08"
@@ -29,6 +31,7 @@ var checks = map[string]func(*core.Ctx) int{
 	"C01":   c01.Run,
 	"C02":   c02.Run,
 	"C04":   c04.Run,
+	"C05":   c05.Run,
 	"C06":   c06.Run,
 	"C07":   c07.Run,
 	"C08":   c08.Run,
@@ -55,6 +58,7 @@ func main() {
 		fmt.Fprintf(os.Stderr, "unknown check %q\n", id)
 		os.Exit(2)
 	}
+	raiseFileLimit()
 	debug.SetGCPercent(800) // allocation-heavy sweeps; memory is plentiful
 	ctx := core.NewCtx(id, os.Args[2:])
 	if p := ctx.Args["cpuprofile"]; p != "" {
@@ -66,4 +70,14 @@ func main() {
 		os.Exit(rc)
 	}
 	os.Exit(run(ctx))
+}
+
+// raiseFileLimit: dstore's zstd read path leaves closing the underlying *os.File to the finalizer; an exploration
+// opens files faster than the collector runs.
+func raiseFileLimit() {
+	var l syscall.Rlimit
+	if err := syscall.Getrlimit(syscall.RLIMIT_NOFILE, &l); err == nil {
+		l.Cur = l.Max
+		syscall.Setrlimit(syscall.RLIMIT_NOFILE, &l)
+	}
 }
